@@ -113,6 +113,7 @@ def execute(sc):
                             trace_files=[FILES['asyncio']] if trace else (),
                             max_steps=sc.get('max_steps', 30000)))
     ctl.interesting = _INTERESTING
+    ctl.stalls = {k: v for k, v in sc.get('stalls', {}).items()}     # thread -> [nth aiuti line, virtual seconds]
     asyncio.set_event_loop_policy(rt.VPolicy())
     fspec = sc.get('func', {})
     inv_counter = [0]
